@@ -1,9 +1,58 @@
 import TaurexModel.Proto
+import TaurexModel.Structure
 
 namespace Taurex.Ops.C11
-open Taurex.Proto
+open Taurex Taurex.Proto Taurex.Structure
 
-/-- operations of the C11 model served by `driver_c11` (filled in by the C11 check) -/
-def ops : List Op := []
+/-- `c11.levels n pmin pmax` → levels (n+1), layer pressures (n) -/
+def levelsOp (args : List String) : Option String :=
+  run (do
+    let n ← nat
+    let pmin ← flt
+    let pmax ← flt
+    let lv := logLevels n pmin pmax
+    pure (fList fF lv ++ " " ++ fList fF (layerPressures lv))) args
+
+/-- `c11.arraylevels profile` → optional levels -/
+def arrayLevelsOp (args : List String) : Option String :=
+  run (do
+    let p ← listOf flt
+    pure (fOpt (fList fF) (arrayLevels p))) args
+
+/-- `c11.scale kb G M R T pl mu` → z H g dz and the stored views altitude, scale height, gravity -/
+def scaleOp (args : List String) : Option String :=
+  run (do
+    let kb ← flt
+    let bigG ← flt
+    let mass ← flt
+    let r ← flt
+    let t ← listOf flt
+    let pl ← listOf flt
+    let mu ← listOf flt
+    let s := scaleProps kb bigG mass r t pl mu
+    let v := views s
+    pure (" ".intercalate [fList fF s.z, fList fF s.H, fList fF s.g, fList fF s.dz,
+      fList fF v.altitudeProfile, fList fF v.scaleheightProfile, fList fF v.gravityProfile])) args
+
+/-- `c11.gravity G M R h` → surface gravity, gravity at height -/
+def gravityOp (args : List String) : Option String :=
+  run (do
+    let bigG ← flt
+    let mass ← flt
+    let r ← flt
+    let h ← flt
+    pure (fF (surfaceGravity (bigG * mass) r) ++ " " ++ fF (gravityAt (bigG * mass) r h))) args
+
+/-- `c11.density kb p t` -/
+def densityOp (args : List String) : Option String :=
+  run (do
+    let kb ← flt
+    let p ← listOf flt
+    let t ← listOf flt
+    pure (fList fF (density kb p t))) args
+
+def ops : List Op :=
+  [("c11.levels", levelsOp), ("c11.arraylevels", arrayLevelsOp), ("c11.scale", scaleOp),
+   ("c11.gravity", gravityOp), ("c11.density", densityOp)]
 
 end Taurex.Ops.C11
